@@ -168,7 +168,7 @@ func (sc *scen) liveClients() []*vclient.Client {
 func (sc *scen) quiesce() bool {
 	// silence for 3 x 130 ms covers galene's 200 ms push delay
 	if !vclient.Quiesce(sc.liveClients(), 3, 130*time.Millisecond, 40*time.Second) {
-		sc.run.Inconclusive("quiescence watchdog fired")
+		sc.run.Undecided("quiescence watchdog fired")
 		sc.bad = true
 		return false
 	}
@@ -327,7 +327,7 @@ func (sc *scen) connect(c *cl, gen int) bool {
 	c.id = fmt.Sprintf("%s-%d", c.name, gen)
 	vc, err := vclient.Dial(sc.srv, c.id)
 	if err != nil {
-		sc.run.Inconclusive("dial: " + err.Error())
+		sc.run.Undecided("dial: " + err.Error())
 		sc.bad = true
 		return false
 	}
@@ -394,7 +394,7 @@ func (sc *scen) publish(c *cl, r *rand.Rand, replace string) {
 	sc.note(fmt.Sprintf("%s publishes %s label=%q tracks=%v replace=%q (present=%v)", c.name, id, label, tracks, replace, c.present))
 	up, err := c.p.Publish(id, label, tracks, replace)
 	if err != nil {
-		sc.run.Inconclusive("publish: " + err.Error())
+		sc.run.Undecided("publish: " + err.Error())
 		sc.bad = true
 		return
 	}
@@ -426,7 +426,7 @@ func (sc *scen) publish(c *cl, r *rand.Rand, replace string) {
 		return
 	}
 	if res != "connected" {
-		sc.run.Inconclusive(fmt.Sprintf("publisher %s stream %s: %s", c.name, id, res))
+		sc.run.Undecided(fmt.Sprintf("publisher %s stream %s: %s", c.name, id, res))
 		sc.bad = true
 		return
 	}
@@ -477,7 +477,7 @@ func (sc *scen) publishBrief(c *cl, r *rand.Rand, replace string, packets bool) 
 	sc.note(fmt.Sprintf("%s publishes short-lived %s label=%q replace=%q (packets=%v), to be replaced at once", c.name, id, label, replace, packets))
 	up, err := c.p.Publish(id, label, tracks, replace)
 	if err != nil {
-		sc.run.Inconclusive("publish: " + err.Error())
+		sc.run.Undecided("publish: " + err.Error())
 		sc.bad = true
 		return ""
 	}
@@ -500,7 +500,7 @@ func (sc *scen) publishBrief(c *cl, r *rand.Rand, replace string, packets bool) 
 	}
 	sc.streams[id] = st
 	if res := up.Wait(20 * time.Second); res != "connected" {
-		sc.run.Inconclusive(fmt.Sprintf("publisher %s short-lived stream %s: %s", c.name, id, res))
+		sc.run.Undecided(fmt.Sprintf("publisher %s short-lived stream %s: %s", c.name, id, res))
 		sc.bad = true
 		return ""
 	}
@@ -552,7 +552,7 @@ func (sc *scen) act(r *rand.Rand) {
 			return
 		}
 		if !ok || m.Str("kind") != "join" {
-			sc.run.Inconclusive(fmt.Sprintf("join of %s failed: %v", c.name, m))
+			sc.run.Undecided(fmt.Sprintf("join of %s failed: %v", c.name, m))
 			sc.bad = true
 			return
 		}
@@ -842,7 +842,7 @@ func runChain(run *vk.Run, srv *vsrv.Server, batch uint64, idx int) {
 		}
 		sc.note(fmt.Sprintf("%s joins %s as %s", c.name, g, user))
 		if m, ok := c.c.Join(g, user, "pw-"+user); !ok || m.Str("kind") != "join" {
-			run.Inconclusive(fmt.Sprintf("join of %s failed: %v", c.name, m))
+			run.Undecided(fmt.Sprintf("join of %s failed: %v", c.name, m))
 			sc.bad = true
 			break
 		}
@@ -943,6 +943,7 @@ func main() {
 	run := vk.Start("C07")
 	batches := run.Pick(3, 24)
 	scen := run.Pick(5, 6)
+	run.TolerateUndecided(run.Pick(2, 4))
 	steps := run.Pick(22, 40)
 	first := uint64(0)
 	if rep, ok := vk.ReplayInput(); ok {
